@@ -12,7 +12,7 @@ ENGINE = "CAL"
 CLASSES = [ES, NK, VX, ZQ, ZT, ZF, ZN, ZB]
 YEARS = list(range(1970, 2100))
 N = {"quick": 300, "thorough": 6000}
-TIME = {"quick": 40, "thorough": 420}
+TIME = {"quick": 300, "thorough": 420}
 RULE = ("Systematic part: the whole (class, year, month) domain - 8 built-in classes x 1970..2099 x 12 months = 12 480 constructions - "
         "is enumerated (one systematic case per class x year); expiry is compared with an oracle written with datetime/calendar only "
         "(n-th Friday; third Friday of the following month minus 30 days and it is a Wednesday; last Mon-Fri of the month), "
